@@ -488,6 +488,82 @@ theorem histories_inv_from (ops : List Op) {s : St} (hs : ∀ i, RInv (s i)) (hb
     ∃ s', run ops s = .ok s' ∧ ∀ i, RInv (s' i) :=
   run_inv ops hs hb
 
+
+/-- the spec checker of the operation `op`, evaluated on the MODEL's own result from state `s`
+    (the same checkers the correspondence run evaluates on the implementation's results) -/
+def stepSpec (s : St) : Op → Bool
+  | .new _ => true
+  | .fromVec v _ => specFromVec v (obsOf (fromVec v))
+  | .insert x r => specInsert (s x) r (obsOf (insertRelaxed (s x) r))
+  | .remove x r => specRemove (s x) r (obsOf (removeRelaxed (s x) r))
+  | .popHead x => match popHead (s x) with
+    | .ok (o, out) => specPopHead (s x) o out
+    | .error _ => false
+  | .popTail x => match popTail (s x) with
+    | .ok (o, out) => specPopTail (s x) o out
+    | .error _ => false
+  | .headn x n _ => specHeadn (s x) n (obsOf (headn (s x) n))
+  | .tailn x n _ => specTailn (s x) n (obsOf (tailn (s x) n))
+  | .edges x _ => specEdges (s x) (obsOf (edges (s x)))
+  | .add x y _ => specUnion (s x) (s y) (obsOf (add (s x) (s y)))
+  | .bitOr x y _ => specUnion (s x) (s y) (obsOf (bitOr (s x) (s y)))
+  | .sub x y _ => specDiff (s x) (s y) (obsOf (sub (s x) (s y)))
+  | .bitAnd x y _ => specInter (s x) (s y) (obsOf (bitAnd (s x) (s y)))
+  | .bitNot x _ => specCompl (s x) (obsOf (bitNot (s x)))
+  | .len x => specLen (s x) (match len (s x) with | .ok n => some n | .error _ => none)
+  | .partitions x => match partitions (s x) with
+    | .ok o => specPartitions (s x) o
+    | .error _ => false
+  | .leftOf x h => match leftOf (s x) h with
+    | .ok o => specLeftOf (s x) h o
+    | .error _ => false
+  | .rightOf x h => match rightOf (s x) h with
+    | .ok o => specRightOf (s x) h o
+    | .error _ => false
+
+/-- from an all-`Inv` state every operation's result passes its spec checker -/
+theorem step_specOK {s : St} (hs : ∀ i, RInv (s i)) {op : Op} (hb : op.Bounded) : stepSpec s op = true := by
+  cases op with
+  | new d => rfl
+  | fromVec v d => exact fromVec_specOK v hb
+  | insert x r => exact insert_specOK (hs x) r hb
+  | remove x r => exact remove_specOK (hs x) r hb
+  | popHead x =>
+    obtain ⟨o, out, e, _, h⟩ := popHead_specOK (hs x)
+    simp only [stepSpec, e]; exact h
+  | popTail x =>
+    obtain ⟨o, out, e, _, h⟩ := popTail_specOK (hs x)
+    simp only [stepSpec, e]; exact h
+  | headn x n d => exact headn_specOK (hs x) n
+  | tailn x n d => exact tailn_specOK (hs x) n
+  | edges x d => exact edges_specOK (hs x)
+  | add x y d => exact (union_specOK (hs x) (hs y)).1
+  | bitOr x y d => exact (union_specOK (hs x) (hs y)).2
+  | sub x y d => exact difference_specOK (hs x) (hs y)
+  | bitAnd x y d => exact intersection_specOK (hs x) (hs y)
+  | bitNot x d => exact complement_specOK (hs x)
+  | len x => exact len_specOK (hs x)
+  | partitions x =>
+    obtain ⟨o, e, h⟩ := partitions_specOK (hs x)
+    simp only [stepSpec, e]; exact h
+  | leftOf x h =>
+    obtain ⟨o, e, h'⟩ := leftOf_specOK (hs x) hb
+    simp only [stepSpec, e]; exact h'
+  | rightOf x h =>
+    obtain ⟨o, e, h'⟩ := rightOf_specOK (hs x) hb
+    simp only [stepSpec, e]; exact h'
+
+/-- **Every step of every history satisfies the spec.**  For any operation sequence (any length,
+    any `u64` arguments) started from empty registers and any position in it: the prefix runs
+    without panic to an all-`Inv` state, and the operation at that position returns what its spec
+    checker — the set-theoretic meaning of the operation — allows. -/
+theorem histories_every_step_spec (pre : List Op) (op : Op) (post : List Op)
+    (hb : ∀ o ∈ pre ++ op :: post, o.Bounded) :
+    ∃ s, run pre (fun _ => []) = .ok s ∧ (∀ i, RInv (s i)) ∧ stepSpec s op = true := by
+  obtain ⟨s, e, hs⟩ := run_inv pre (s := fun _ => []) (fun _ => inv_nil)
+    (fun o ho => hb o (List.mem_append_left _ ho))
+  exact ⟨s, e, hs, step_specOK hs (hb op (by simp))⟩
+
 /-! ### the two repaired defects, on the pre-repair transcriptions -/
 
 /-- before `fix: BlockRange::tailn …`: `(MAX-2..=MAX).tailn(10)` lost `u64::MAX`, and
